@@ -270,3 +270,116 @@ pub mod metatoken {
     }
 }
 pub use metatoken::*;
+#[allow(unused_imports)]
+pub mod derivedprobe {
+    //! A contract that gets its owner / upgrade / migrate entry points from the repo's derive macros.
+    use axelar_soroban_std::{interfaces, Ownable, Upgradable};
+    use soroban_sdk::{contract, contracterror, contractimpl, Address, Env};
+
+    #[contracterror]
+    #[derive(Copy, Clone, Debug, Eq, PartialEq, PartialOrd, Ord)]
+    #[repr(u32)]
+    pub enum ContractError {
+        MigrationNotAllowed = 1,
+    }
+
+    #[contract]
+    #[derive(Ownable, Upgradable)]
+    pub struct DerivedProbe;
+
+    #[contractimpl]
+    impl DerivedProbe {
+        pub fn __constructor(env: Env, owner: Address) {
+            interfaces::set_owner(&env, &owner);
+        }
+    }
+
+    impl DerivedProbe {
+        const fn run_migration(_env: &Env, _migration_data: ()) {}
+    }
+}
+pub use derivedprobe::{DerivedProbe, DerivedProbeClient};
+
+#[allow(unused_imports)]
+pub mod verprobe {
+    //! Upgradable target with configurable version / migration behaviour, for the Upgrader matrix.
+    use axelar_soroban_std::interfaces;
+    use soroban_sdk::{contract, contractimpl, contracttype, Address, BytesN, Env, String};
+
+    #[contracttype]
+    pub enum VKey {
+        Version,
+        Data,
+    }
+
+    #[contract]
+    pub struct VerProbe;
+
+    #[contractimpl]
+    impl VerProbe {
+        pub fn __constructor(env: Env, owner: Address, version: String) {
+            interfaces::set_owner(&env, &owner);
+            env.storage().instance().set(&VKey::Version, &version);
+        }
+        pub fn owner(env: Env) -> Address {
+            interfaces::owner(&env)
+        }
+        pub fn transfer_ownership(env: Env, new_owner: Address) {
+            interfaces::owner(&env).require_auth();
+            interfaces::set_owner(&env, &new_owner);
+        }
+        pub fn version(env: Env) -> String {
+            env.storage().instance().get(&VKey::Version).unwrap()
+        }
+        pub fn data(env: Env) -> Option<u32> {
+            env.storage().instance().get(&VKey::Data)
+        }
+        pub fn upgrade(env: Env, new_wasm_hash: BytesN<32>) {
+            interfaces::owner(&env).require_auth();
+            env.deployer().update_current_contract_wasm(new_wasm_hash);
+        }
+        /// "new code": sets the version it was told to report, stores data, may fail
+        pub fn migrate(env: Env, new_version: String, data: u32, fail: bool) {
+            interfaces::owner(&env).require_auth();
+            if fail {
+                panic!("migration failed");
+            }
+            env.storage().instance().set(&VKey::Version, &new_version);
+            env.storage().instance().set(&VKey::Data, &data);
+        }
+    }
+}
+pub use verprobe::{VerProbe, VerProbeClient};
+
+#[allow(unused_imports)]
+pub mod dummylike {
+    //! Native stand-in for the upgrader test-suite's dummy contract (version 0.1.0), to be upgraded to
+    //! the committed dummy.wasm (version 0.2.0, migrate(String)).
+    use axelar_soroban_std::interfaces;
+    use soroban_sdk::{contract, contractimpl, Address, BytesN, Env, String};
+
+    #[contract]
+    pub struct DummyLike;
+
+    #[contractimpl]
+    impl DummyLike {
+        pub fn __constructor(env: Env, owner: Address) {
+            interfaces::set_owner(&env, &owner);
+        }
+        pub fn owner(env: Env) -> Address {
+            interfaces::owner(&env)
+        }
+        pub fn transfer_ownership(env: Env, new_owner: Address) {
+            interfaces::owner(&env).require_auth();
+            interfaces::set_owner(&env, &new_owner);
+        }
+        pub fn version(env: Env) -> String {
+            String::from_str(&env, "0.1.0")
+        }
+        pub fn upgrade(env: Env, new_wasm_hash: BytesN<32>) {
+            interfaces::owner(&env).require_auth();
+            env.deployer().update_current_contract_wasm(new_wasm_hash);
+        }
+    }
+}
+pub use dummylike::{DummyLike, DummyLikeClient};
